@@ -331,3 +331,27 @@ def d_multi_target_deep():
 
 ALL += [d_multi_target_deep]
 WORDS["d_multi_target_deep"] = [["g"], ["e"]]
+
+
+def _par_hist_done(deep, first):
+    # a <parallel> with a <history> child whose regions all reach a <final>: the pseudo-state is no child state
+    # (getChildStates), so done.state.p is due; out/back re-enters through the history
+    def region(n):
+        r1 = State(name="r%d1" % n, trans=[T("go", ["r%df" % n])])
+        rf = Final(name="r%df" % n)
+        return State(r1, rf, name="r%d" % n)
+    h = History(["r11", "r21"] if deep else ["r1", "r2"], deep=deep, name="h")
+    kids = [h, region(1), region(2)] if first else [region(1), region(2), h]
+    p = Parallel(*kids, name="p", trans=[T("done.state.p", ["fin"]), T("out", ["q"])])
+    q = State(name="q", trans=[T("back", ["h"])])
+    fin = Final(name="fin")
+    return Chart(Scxml(p, q, fin), tags=["parallel", "done", "history"])
+
+
+def d_parallel_history_done_deep(): return _par_hist_done(True, True)
+def d_parallel_history_done_shallow(): return _par_hist_done(False, False)
+
+
+ALL += [d_parallel_history_done_deep, d_parallel_history_done_shallow]
+WORDS["d_parallel_history_done_deep"] = [["go"], ["out", "back", "go"]]
+WORDS["d_parallel_history_done_shallow"] = [["go"], ["out", "back", "go"]]
